@@ -29,34 +29,34 @@ def run(c):
     c.r2_arg("child-nested-in-parent", B + "child", "re:heed::.*Env::nested_write_txn$", 1, must=["arg0.write"])
     # --- visibility
     for m in ("get_with", "exists", "iter"):
-        c.r1("batch-%s-reads-own-writes" % m, B + m, "re:heed::txn::RwTxn::nested_read_txn$", via=0, sink="return", called_only=True,
+        c.r1("batch-%s-reads-own-writes" % m, B + m, "re:heed::txn::RwTxn::nested_read_txn$", via=2, sink="return", called_only=True,
              desc="Batch::%s reads through a nested read txn of its own write txn (sees its own uncommitted writes)" % m)
         c.r2_arg("batch-%s-txn" % m, B + m, "re:heed::txn::RwTxn::nested_read_txn$", 0, must=["arg0.write"])
         c.never("batch-%s-no-fresh-txn" % m, B + m, None, "re:heed::.*Env::(read_txn|static_read_txn)$")
     for m, txn in (("get_ser", "read_txn"), ("exists", "read_txn"), ("iter", "static_read_txn")):
-        c.r1("store-%s-fresh-read-txn" % m, S + m, "re:heed::.*Env::%s$" % txn, via=0, sink="return", called_only=True,
+        c.r1("store-%s-fresh-read-txn" % m, S + m, "re:heed::.*Env::%s$" % txn, via=2, sink="return", called_only=True,
              desc="Store::%s reads through a fresh read transaction (committed state only)" % m)
-        c.r1("store-%s-counts-tx" % m, S + m, S + "enter_tx", sink="re:heed::.*Env::%s$" % txn, via=0,
+        c.r1("store-%s-counts-tx" % m, S + m, S + "enter_tx", sink="re:heed::.*Env::%s$" % txn, via=2,
              desc="Store::%s registers with the open-transaction counter before opening the transaction" % m)
         c.never("store-%s-no-write-txn" % m, S + m, None, "re:heed::.*Env::(write_txn|nested_write_txn)$|heed::txn::RwTxn::nested_read_txn$")
-    c.r1("batch-counts-tx", B + "new", S + "enter_tx", sink="re:heed::.*Env::write_txn$", via=0)
-    c.r1("batch-resize-check-first", S + "batch", S + "maybe_resize", sink=B + "new", via=0)
+    c.r1("batch-counts-tx", B + "new", S + "enter_tx", sink="re:heed::.*Env::write_txn$", via=2)
+    c.r1("batch-resize-check-first", S + "batch", S + "maybe_resize", sink=B + "new", via=2)
     # --- resize gate
     M = S + "maybe_resize"
     c.r3("resize-sites", "re:heed::.*Env::resize$", {M, S + "migrate_to_default_env"}, floor_sites=3)
-    c.r1("resize-flag-set-first", M, S + "set_resizing", sink="re:heed::.*Env::resize$", via=0, desc="maybe_resize: resizing flag is set before the immediate resize")
+    c.r1("resize-flag-set-first", M, S + "set_resizing", sink="re:heed::.*Env::resize$", via=2, desc="maybe_resize: resizing flag is set before the immediate resize")
     c.r2_arg("resize-flag-true", M, S + "set_resizing", 1, const=1, where=r"^arg0, 1$", floor=1)
-    c.r1("resize-flag-before-spawn", M, S + "set_resizing", sink="re:std::thread::(functions::)?spawn$", via=0)
+    c.r1("resize-flag-before-spawn", M, S + "set_resizing", sink="re:std::thread::(functions::)?spawn$", via=2)
     c.r2("immediate-resize-only-with-zero-txs", M, ops={"Ne"}, lhs=["call:Store::open_txs_count"], rhs=["const:0"], fail_on=True, sink="re:heed::.*Env::resize$",
          desc="maybe_resize: the immediate resize is on the `open_txs_count() == 0` edge only")
-    c.r1("single-checker", M, S + "start_resize_checking", sink="re:heed::.*Env::resize$", via=0, truth=True)
+    c.r1("single-checker", M, S + "start_resize_checking", sink="re:heed::.*Env::resize$", via=2, truth=True)
     # flags cleared after the immediate resize
-    c.r1("immediate-clears-resizing", M, S + "set_resizing", start="re:heed::.*Env::resize$", sink="return", via=0)
-    c.r1("immediate-clears-checking", M, S + "finish_resize_checking", start="re:heed::.*Env::resize$", sink="return", via=0)
+    c.r1("immediate-clears-resizing", M, S + "set_resizing", start="re:heed::.*Env::resize$", sink="return", via=2)
+    c.r1("immediate-clears-checking", M, S + "finish_resize_checking", start="re:heed::.*Env::resize$", sink="return", via=2)
     W = M + "@re:std::thread::(functions::)?spawn$"
     c.r2_edge("waiter-resizes-after-zero", W, [(r"^Eq\(Atomic::load\(.*\.open_txs_count, Ordering::\w+\{\}\), 0\)$", "true")], "re:heed::.*Env::resize$",
          desc="resize waiter thread: Env::resize only after the open-transaction count was observed to be zero")
-    c.r1("waiter-clears-flags", W, "re:core::sync::atomic::Atomic(Bool)?::store$|atomic::AtomicBool::store$", start="re:heed::.*Env::resize$", sink="return", via=0)
+    c.r1("waiter-clears-flags", W, "re:core::sync::atomic::Atomic(Bool)?::store$|atomic::AtomicBool::store$", start="re:heed::.*Env::resize$", sink="return", via=2)
     E = S + "enter_tx"
     c.r2_edge("enter-blocked-while-resizing", E, [(r"^Atomic::load\(.*\.resizing, Ordering::Acquire\{\}\)$", "false"), (r"^LocalKey::with\(", "true")],
               "re:core::sync::atomic::.*::fetch_add$|atomic::Atomic.*::fetch_add$", desc="enter_tx admits a new transaction only if !resizing or the thread already holds one (nested)")
